@@ -170,9 +170,23 @@ def run(ctx):
     for kind in sorted(need_git):
         ctx.check("R2-git-cooker-accepts", f"{GT}:cook_conflicts", kind in gk, f"kind {kind!r} (reachable in git trees) is handled by the git cooker", construct=kind, message=f"kind {kind!r} can reach the git cook_conflicts, which has no arm for it and raises AssertionError")
     ctx.sample({"resolvers": sorted(resolvers), "emitted_bzr": sorted(eb), "emitted_git": sorted(eg), "cooked": {k: sorted(v) for k, v in cooked.items()}, "merge_kinds": sorted(merge_kinds), "git_cooker": sorted(gk)})
+    # ---- the preview lists a directory's children by the children's own ids (fourth round, agent's observation) ---------
+    for rel_, q_ in ((GT, "GitPreviewTree.iter_child_entries"), (BT, "InventoryPreviewTree.iter_child_entries")):
+        f_ = repo.func(rel_, q_)
+        loops_ = [n_ for n_ in ast.walk(f_) if isinstance(n_, (ast.For, ast.comprehension)) and any(call_attr(c) == "_all_children" for c in ast.walk(n_.iter) if isinstance(c, ast.Call))]
+        ctx.require(bool(loops_), f"{rel_}:{q_}: iteration over self._all_children(...) not found")
+        for lp in loops_:
+            tnames = {n_.id for n_ in ast.walk(lp.target) if isinstance(n_, ast.Name)}
+            if isinstance(lp, ast.For):
+                used = {n_.id for st in lp.body for n_ in ast.walk(st) if isinstance(n_, ast.Name)}
+            else:
+                owner = [c for c in ast.walk(f_) if isinstance(c, (ast.ListComp, ast.GeneratorExp, ast.SetComp)) and lp in c.generators]
+                used = {n_.id for c in owner for n_ in ast.walk(c.elt) if isinstance(n_, ast.Name)}
+            ctx.check("preview-children-by-child-id", f"{rel_}:{q_}", bool(tnames & used), "each child's own transform id is what the entry is built from", construct=f"loop variable {sorted(tnames)} unused" if not (tnames & used) else "", message=f"{q_} walks the children of the directory but never uses the child's id ({sorted(tnames)}): the preview yields the directory's own entry once per child — it lists other children than the tree that apply() produces")
 
 
 MUTANTS = [
+    Mutant("git preview lists the directory once per child (fix 19970ae reverted)", GT, "            entry, is_versioned = self._transform.final_entry(child_trans_id)\n", "            entry, is_versioned = self._transform.final_entry(trans_id)\n", expect="preview-children-by-child-id"),
     Mutant("unbounded resolution loop", TR, "        for n in range(10):\n            pb.update(gettext(\"Resolution pass\"), n + 1, 10)", "        n = 0\n        while True:\n            n += 1\n            pb.update(gettext(\"Resolution pass\"), n + 1, 10)", expect=["R1-bounded-loop", "R1-exits"]),
     Mutant("emitted kind renamed on one side", BT, "yield (\"duplicate\", last_trans_id, trans_id, name)", "yield (\"dup\", last_trans_id, trans_id, name)", expect="R2-emitted-kind-known"),
     Mutant("returns with conflicts left after the last pass", TR, "            new_conflicts.update(pass_func(tt, conflicts))\n        raise MalformedTransform(conflicts=conflicts)", "            new_conflicts.update(pass_func(tt, conflicts))\n        return new_conflicts", expect="R1-exits"),
